@@ -13,9 +13,11 @@ import itertools
 import json
 import math
 
+from .. import canon as C
 from .. import common, evidence, explore, findings
 
 PID = "C16"
+KNOWN_DM_ATTRS = {"_column_indexer", "_data", "_need_refresh_rows", "_reset_index", "_rows", "_schema"}
 COLS = ["stmt_id", "operation", "x"]
 
 
@@ -459,7 +461,10 @@ def explore_datamodel(dmmod, util, init_names, depth, rep, quit_exc):
         return None
 
     def canon(st):
-        return (st.init if not st.model.rows and False else None, st.model.key(), cache_canon(st.dm))
+        # attributes the current DataModel does not have (added by a later version) are part of the state as they are:
+        # merging states that differ only there would hide what such a structure does later
+        extra = tuple(sorted((k, repr(C.canon(v))) for k, v in vars(st.dm).items() if k not in KNOWN_DM_ATTRS))
+        return (st.init if not st.model.rows and False else None, st.model.key(), cache_canon(st.dm), extra)
 
     def on_violation(kind, what, hist):
         h = hist[0][1] + ": " + " ; ".join(fmt(o) for o in hist[1:])
